@@ -116,7 +116,7 @@ def registry(cid, tier='thorough'):
     names = "enum(%s)" % ','.join(repr(x) for x in (EC.NAMES[cid] if tier == 'thorough' else EC.NAMES[cid][:2]))
     Q = Q_expr(cid, 'self')
 
-    reg.add(Contract(KEY + '.has_private', params={}, raises={}, ensures={'v': 'result <==> (self._d is not None)'}, modifies=[]))
+    reg.add(Contract(KEY + '.has_private', params={}, raises={}, ensures={'v': 'result <==> (self._d is not None)'}, modifies=[], result='bool'))
     reg.add(Contract(KEY + '.pointQ', params={}, raises={}, result=OPT,
                      ensures={'value': 'result._point._raw_pointer.%s == old(%s)' % (gf, Q), 'cached': 'self._point is result'},
                      modifies=['self._point']))        # callers inline this three-line property (its result may be a NEW object)
@@ -130,7 +130,7 @@ def registry(cid, tier='thorough'):
     # different curves goes through the native cmp of points with different contexts, which is outside the abstract model (NOT PROVED).
     QO = Q_expr(cid, 'other')
     reg.add(Contract(KEY + '.__eq__', params={'other': OKEY + '|int|none|bytes'}, raises={},
-                     ensures={'semantic': 'result <==> (isinstance(other, EccKey) and (old(self._d) is None) == (old(other._d) is None) and old(%s) == old(%s))' % (Q, QO),
+                     ensures={'semantic': 'result <==> (isinstance(other, EccKey) and old(self._d is None) == old(other._d is None) and old(%s) == old(%s))' % (Q, QO),
                               'bool': 'result is True or result is False'},
                      modifies=['self._point', 'other._point'], inline=[KEY + '.pointQ']))
     return reg
